@@ -200,8 +200,14 @@ impl Parser for Markdown {
                 | pulldown_cmark::Event::End(pulldown_cmark::TagEnd::Heading(_))
                 | pulldown_cmark::Event::End(pulldown_cmark::TagEnd::CodeBlock)
                 | pulldown_cmark::Event::End(pulldown_cmark::TagEnd::TableCell) => {
+                    // An end event does not move `traversed_chars`, which still points at the
+                    // start of the block's last piece of text: the break goes behind the text.
+                    let block_end = tokens
+                        .last()
+                        .map_or(traversed_chars, |t| t.span.end.max(traversed_chars));
+
                     tokens.push(Token {
-                        span: Span::new_with_len(traversed_chars, 0),
+                        span: Span::new_with_len(block_end, 0),
                         kind: TokenKind::ParagraphBreak,
                     });
                     stack.pop();
